@@ -364,8 +364,8 @@ impl<Aux> Vm<'_, Aux> {
         }
         #[cfg(feature = "verif-hooks")]
         let _verif_depth_guard = VerifDepthGuard;
-        // FIXME: should store in VM
-        let mut remaining_iters = self.max_instr;
+        // the budget lives in the Vm (set by `run`), so that script functions called back by
+        // native functions draw from the budget of the run that is in progress
         let bytecode_ptr = program.bytecode.as_ptr();
         let payload_to_error =
             |err,
@@ -384,14 +384,14 @@ impl<Aux> Vm<'_, Aux> {
             };
 
         while *instr_ptr < len {
-            remaining_iters -= 1;
-            if remaining_iters == 0 {
+            if self.remaining_iters == 0 {
                 return Err(payload_to_error(
                     ExecutionErrorPayload::Timeout,
                     *instr_ptr,
                     &self.runtime_data.call_stack,
                 ));
             }
+            self.remaining_iters -= 1;
             let instr: u8 = unsafe { *bytecode_ptr.add(*instr_ptr) };
             let instr: Instruction = unsafe { transmute(instr) };
             let src_ptr = *instr_ptr;
